@@ -44,7 +44,11 @@ pub fn gen(o: &Opts, sink: &mut dyn FnMut(Vec<i64>, String)) {
         c.push(5); c.push(2);
         let nreq = 1 + rng.below(5);
         for _ in 0..nreq {
-            let to = match rng.below(4) { 0 => 0xff, 1 => (addr + 1) % 256, _ => addr };
+            // to the daemon, to everybody, to a neighbour, to a unit it drives, to a source address one of its drivers uses
+            let sas: Vec<i64> = ds.iter().filter(|d| d[2] != 0).map(|d| d[3]).collect();
+            let das: Vec<i64> = ds.iter().map(|d| d[1]).collect();
+            let to = match rng.below(7) { 0 => 0xff, 1 => (addr + 1) % 256,
+                2 if !sas.is_empty() => *rng.pick(&sas), 3 if !das.is_empty() => *rng.pick(&das), _ => addr };
             let pgn = *rng.pick(&[60928u32, 65242, 65254, 65259, 0, 61444, 0x3ffff, 0xee00 + 0x10000]);
             let dlc = if rng.chance(1, 6) { rng.below(3) as i64 } else { *rng.pick(&[3i64, 8]) };
             c.extend(request(to, rng.below(256) as i64, pgn, dlc));
